@@ -218,3 +218,118 @@ def c14(pid, tier, replay):
         log("  " + desc)
         rc = 1
     return rc
+
+
+# ---------------------------------------------------------------------------------------------------------------
+# generic: real-process probe -> rows -> TLC validation (C18, C19, C20)
+
+def rows_engine(pid, tier, specs, module, cfg, test, files, describe, level_text, rule, assumptions, probe_env=None, timeout=1500,
+                row_key=None):
+    """files: {ENVVAR: filename-in-workdir}; the TLC cfg lists the invariants; ALIAS must give kind and line."""
+    t0 = time.time()
+    clean_replays(pid)
+    with scratch("verif-%s-" % pid.lower()) as work:
+        copy_specs(work, specs)
+        probe = build_probe("realprobe", work)
+        env = dict(os.environ, VERIF_TIER=tier, VERIF_SEED=str(seed()))
+        env.update(probe_env or {})
+        for k, fn in files.items():
+            env[k] = os.path.join(work, fn)
+        p = run([probe, "-test.run", test, "-test.count", "1", "-test.timeout", "0"], env=env, timeout=timeout)
+        if p.returncode != 0 or "INFRA" in p.stdout:
+            raise Infra("probe %s failed:\n%s" % (test, p.stdout[-3000:]))
+        rows = {k: [json.loads(l) for l in open(env[k])] for k in files}
+        kind_file = {}
+        viols = []
+        for rnd in range(25):
+            rc, out = tlc(work, module, cfg, workers=2, timeout=900)
+            if "No error has been found" in out:
+                break
+            name = tlc_violation(out)
+            if not name:
+                if "Assumption" in out and "is false" in out:
+                    raise Infra("row table incomplete: the probe did not record every case of the specification")
+                raise Infra("TLC row validation failed:\n" + out[-3000:])
+            stt = last_alias_state(out)
+            kind, line = stt.get("kind", '""').strip('"'), int(stt.get("line", "1"))
+            fn = None
+            for k, f in files.items():
+                if f.endswith("_" + kind + "_rows.ndjson") or f == kind + "_rows.ndjson":
+                    fn = env[k]
+            if fn is None:
+                fn = env[list(files)[0]]
+            lines = open(fn).read().splitlines()
+            bad = json.loads(lines[line - 1])
+            viols.append((name, bad))
+            del lines[line - 1]
+            open(fn, "w").write("\n".join(lines) + "\n")
+            # completeness of the table was checked in the first round
+            tl = os.path.join(work, module)
+            txt = "\n".join(l for l in open(tl).read().split("\n") if not l.startswith("ASSUME {"))
+            open(tl, "w").write(txt)
+    reported = []
+    seen = set()
+    for name, r in viols:
+        desc = "formula=%s %s" % (name, describe(r))
+        key = row_key(r) if row_key else desc
+        if key in seen:
+            continue
+        seen.add(key)
+        reported.append((r, write_replay(pid, len(reported) + 1, {"property": pid, "formula": name, "row": r, "desc": desc}), desc))
+    n = sum(len(v) for v in rows.values())
+    first = rows[list(files)[0]]
+    cov = {"evaluations": n, "distinct_nontrivial": len({json.dumps(r, sort_keys=True) for v in rows.values() for r in v}),
+           "rule": rule, "samples": [first[0], first[len(first) // 2]], "rows": {k: len(v) for k, v in rows.items()},
+           "explanation": level_text}
+    write_evidence(pid, tier, "exploration", cov, time.time() - t0, violations=len(reported), assumptions=assumptions)
+    from checks import known_match
+    rc = 0
+    for r, path, desc in reported[:8]:
+        k = known_match(pid, desc)
+        if k:
+            print("KNOWN-FINDING: property=%s %s" % (pid, k.get("description", desc)))
+            continue
+        print("VIOLATION property=%s replay=%s" % (pid, path))
+        log("  " + desc[:300])
+        rc = 1
+    return rc
+
+
+def c18(pid, tier, replay):
+    return rows_engine(
+        pid, tier, {"Env.tla", "RowsEnv.tla", "RowsEnv.cfg"}, "RowsEnv.tla", "RowsEnv.cfg", "TestEnv",
+        {"VERIF_ROWS_ENV": "env_rows.ndjson", "VERIF_ROWS_ENV_EXTRA": "env_extra_rows.ndjson"},
+        lambda r: ("name-levels=%s payload=%s point=%s seen=%s exact=%s" % (r["levels"], r["payload"], r["point"], r["seen"], r["exact"]))
+        if "levels" in r else ("what=%s info=%s" % (r["what"], r.get("info"))),
+        "Env.tla enumerates name-level subsets x payload classes x observation points and gives the visible level; real /bin/sh tasks "
+        "started by the real TaskRunner print every variable; each recorded row is validated by TLC against Visible(case); template "
+        "rendering with the job's own variables and the refusal of the reserved variable name are checked as extra rows",
+        "one row per (subset of levels defining the name, payload class, (pipeline, task)); distinct = distinct rows",
+        ["byte-level payload space is sampled (6 classes), not enumerated", "job variables containing template syntax are excluded (upstream variable nesting)"])
+
+
+def c19(pid, tier, replay):
+    gen_cfg, cfg = ("LogsGen4.cfg", "RowsLogs4.cfg") if tier == "thorough" else ("LogsGen.cfg", "RowsLogs.cfg")
+    # TLC enumerates the shapes for the probe
+    gen = os.path.join(VERIF, ".cache", "logs-cases-%s-%d" % (tier, os.getpid()))
+    os.makedirs(gen, exist_ok=True)
+    try:
+        copy_specs(gen, {"Logs.tla", "LogsGen.tla", gen_cfg})
+        rc, out = tlc(gen, "LogsGen.tla", gen_cfg, workers=1, timeout=300)
+        cases = os.path.join(gen, "logs_cases.ndjson")
+        if "No error has been found" not in out or not os.path.exists(cases):
+            raise Infra("Logs.tla case generation failed:\n" + out[-2000:])
+        return rows_engine(
+            pid, tier, {"Logs.tla", "RowsLogs.tla", cfg}, "RowsLogs.tla", cfg, "TestLogs",
+            {"VERIF_ROWS_LOGS": "logs_rows.ndjson", "VERIF_ROWS_LOGS_EXTRA": "logs_extra_rows.ndjson"},
+            lambda r: ("shape=%s job=%s task=%s stream=%s equal=%s order=%s cross=%s apiEqual=%s len=%s/%s" % (
+                json.dumps(r["shape"]), r["job"], r["task"], r["stream"], r["equal"], r["order"], r["cross"], r["apiEqual"], r["lenGot"], r["lenExp"]))
+            if "shape" in r else ("what=%s info=%s" % (r["what"], r.get("info"))),
+            "Logs.tla enumerates task shapes (1-3 commands x stream pattern x size classes) and gives the chunk order per stream; every shape "
+            "runs as a real task (cat of seeded chunk files to stdout / stderr) in several concurrent jobs; Reader bytes and GET /job/logs are "
+            "compared with the expectation and TLC validates order / equality / no cross-talk per row",
+            "one row per (shape, job, stream); distinct = distinct rows",
+            ["sizes and concurrency are sampled (classes up to 64 KiB + 1 in quick, 5 MiB in thorough)", "log API compared on ASCII payloads"],
+            probe_env={"VERIF_CASES_LOGS": cases}, row_key=lambda r: json.dumps(r.get("shape", r.get("what"))) + str(r.get("stream")))
+    finally:
+        shutil.rmtree(gen, ignore_errors=True)
